@@ -26,6 +26,8 @@ struct Plan {
     /// resolver output order
     addrs: Vec<Addr>,
     ct_ms: u64,
+    /// the caller passes Duration::MAX as the connect timeout (`ct_ms` is then only a stand-in)
+    ct_max: bool,
     t_ms: Option<u64>,
     resolvable: bool,
     /// simulated duration of the name lookup (the overall deadline keeps running meanwhile)
@@ -128,7 +130,16 @@ fn gen(g: &mut G) -> Plan {
         t_ms = Some((addrs.len() as u64 - 1) * 200 + *g.pick(&[30u64, 50, 100, 150, 199, 200, 250]));
         g.probe("all-unresponsive-with-deadline");
     }
-    Plan { addrs, ct_ms, t_ms, resolvable: !g.chance(1, 25), dns_ms }
+    // "no limit" as callers write it (only where something ends the wait: an address that answers)
+    let answers = addrs.iter().any(|a| !matches!(a.beh, ConnectBehaviour::Blackhole) && !matches!(a.beh, ConnectBehaviour::Accept { latency_ns } if latency_ns > 3_000_000 * NS_PER_MS));
+    let all_answer = addrs.iter().all(|a| !matches!(a.beh, ConnectBehaviour::Blackhole) && !matches!(a.beh, ConnectBehaviour::Accept { latency_ns } if latency_ns > 3_000_000 * NS_PER_MS));
+    let ct_max = answers && (all_answer || addrs.iter().any(|a| matches!(a.beh, ConnectBehaviour::Accept { latency_ns } if latency_ns < 3_000_000 * NS_PER_MS))) && g.chance(1, 10);
+    if ct_max {
+        // for the oracle: far beyond anything a run can reach
+        ct_ms = 1_000_000_000;
+        g.probe("connect-timeout-is-duration-max");
+    }
+    Plan { addrs, ct_ms, t_ms, resolvable: !g.chance(1, 25), dns_ms, ct_max }
 }
 
 fn expected_order(p: &Plan) -> Vec<Addr> {
@@ -155,7 +166,7 @@ struct Obs {
 
 fn caller(p: &Plan) -> Obs {
     let start = attosim::now_ns();
-    let mut rb = attohttpc::get(format!("http://{}/", HOST)).connect_timeout(Duration::from_millis(p.ct_ms)).read_timeout(Duration::from_secs(5));
+    let mut rb = attohttpc::get(format!("http://{}/", HOST)).connect_timeout(if p.ct_max { Duration::MAX } else { Duration::from_millis(p.ct_ms) }).read_timeout(Duration::from_secs(5));
     if let Some(t) = p.t_ms {
         rb = rb.timeout(Duration::from_millis(t));
     }
@@ -269,7 +280,7 @@ fn oracle(p: &Plan, o: &Obs, h: &History, g: &mut G) -> Verdict {
     let deadline = p.t_ms.map(|t| o.start + t * NS_PER_MS);
     let race_start = o.start + p.dns_ms * NS_PER_MS;
     // attempts actually started, by start time (ties keep kernel order)
-    let mut started: Vec<&attosim::ConnectRec> = h.connects.iter().collect();
+    let mut started: Vec<&attosim::ConnectRec> = h.connects.iter().chain(h.pending_connects.iter()).collect();
     started.sort_by_key(|c| (c.t_start, c.seq));
     if p.addrs.len() >= 2 {
         g.probe("raced");
